@@ -155,6 +155,80 @@ def check_alloc(spec, pool_size, infinite):
     return None
 
 
+@rechecked
+def check_reserve_nesting(family, depth, extra):
+    """
+    Nested `with stack.reserve_registers(...)` contexts on one register (as loop nests carrying one accumulator do): while ANY enclosing context is
+    open the register cannot be pushed back (so no other value can be given it); once the outermost is left it can.
+    """
+    if family == "riscv":
+        from xdsl.backend.riscv.register_stack import RiscvRegisterStack as Stack
+        from xdsl.dialects import riscv
+
+        mk = riscv.IntRegisterType.from_name
+        names = ["t0", "t1", "t2"]
+    else:
+        from xdsl.backend.x86.register_stack import X86RegisterStack as Stack
+        from xdsl.dialects.x86 import registers
+
+        mk = registers.Reg64Type.from_name
+        names = ["rax", "rcx", "rdx"]
+    regs = [mk(n) for n in names]
+    stack = Stack.get(allocatable_registers=regs[1:])  # regs[0] is NOT available: it is held by the loop-carried value
+    r = regs[0]
+    stack.include_register(r)
+    got = stack.pop(type(r))
+    if got != r:
+        return None
+    import contextlib
+
+    def available():
+        stack.push(r)
+        key = r.register_pool_key()
+        return r.index.data in stack.available_registers[key]
+
+    def take_back():
+        # undo a successful push so that the probe does not disturb the scenario
+        key = r.register_pool_key()
+        if r.index.data in stack.available_registers[key]:
+            stack.available_registers[key].remove(r.index.data)
+
+    with contextlib.ExitStack() as outer:
+        ctxs = []
+        for d in range(depth):
+            c = stack.reserve_registers([r] + (regs[1:1 + extra] if d == depth - 1 else []))
+            c.__enter__()
+            ctxs.append(c)
+        for d in range(depth - 1, -1, -1):
+            if available():
+                return {"family": family, "depth": depth, "why": f"the register reserved by {d + 1} open context(s) was made available by push", "key": "C19/reservation"}
+            ctxs[d].__exit__(None, None, None)
+            still = d > 0
+            av = available()
+            if still and av:
+                return {"family": family, "depth": depth, "why": f"after leaving an inner context ({d} still open) the reserved register was made available by push", "key": "C19/reservation"}
+            if not still and not av:
+                return {"family": family, "depth": depth, "why": "after leaving the outermost context the register cannot be pushed back", "key": "C19/reservation"}
+            take_back()
+    return None
+
+
+def explore_reservations(tier, seed):
+    cases, fails = 0, []
+    for family in ("riscv", "x86"):
+        for depth in (1, 2, 3):
+            for extra in (0, 1):
+                cases += 1
+                try:
+                    f = check_reserve_nesting(family, depth, extra)
+                except Exception as e:  # noqa: BLE001
+                    f = {"family": family, "depth": depth, "why": f"raised {type(e).__name__}: {str(e)[:100]}", "key": "C19/reservation"}
+                if f and not fails:
+                    fails.append(f)
+    return {"cases": cases, "failures": fails, "exhaustive": True,
+            "bound": "nested reserve_registers contexts of depth 1-3 on one loop-carried register (riscv and x86 stacks), with and without a second register in the innermost context"}
+
+
 def gen(rnd):
     n = rnd.randrange(1, 7)
     ops = []
